@@ -8,7 +8,7 @@
    harness compares their dumps). *)
 Require Import Cirbo.Model.Base Cirbo.Model.Gate Cirbo.Model.Circuit Cirbo.Model.Eval Cirbo.Model.Sem
         Cirbo.Model.Connect Cirbo.Model.WF Cirbo.Model.Miter.
-Require Import Cirbo.Proofs.WFSound Cirbo.Proofs.SemMiter.
+Require Import Cirbo.Proofs.WFSound Cirbo.Proofs.SemMiter Cirbo.Proofs.SemMiterTotal.
 
 (* mismatched shapes are rejected with the dedicated error (whatever the circuits are) *)
 Theorem C13_mismatched_shapes_rejected : forall l r ln rn,
@@ -55,6 +55,28 @@ Theorem C13_miter_true_iff_differ : forall l r ln rn m,
        Eval l (miter_left_assignment ln a l) o_l vl /\
        Eval r (miter_right_assignment ln a l r) o_r vr /\ vl <> vr).
 Proof. exact build_miter_true_iff_differ. Qed.
+
+(* totality: with the implementation's block names build_miter returns normally for ALL well
+   formed operands of equal shapes (whatever their labels and blocks are) ... *)
+Theorem C13_miter_total_default_names : forall l r,
+  WF l -> WF r ->
+  length (inputs l) = length (inputs r) -> length (outputs l) = length (outputs r) ->
+  exists m, build_miter l r "circuit1" "circuit2" = Ok m.
+Proof. exact build_miter_total_default. Qed.
+
+(* ... and for arbitrary block names exactly when no prefixed gate label or block name clashes
+   (MiterNoClash, Proofs/SemMiterTotal.v: ln <> rn, "pairwise_xor" is neither name, no ln@k / rn@k
+   block equals another block name, no rn@y equals some ln@g, no "pairwise_xor@xor_i" or "big_or"
+   equals some ln@g / rn@y; y ranges over the gates of r that are not inputs) *)
+Theorem C13_miter_total : forall l r ln rn,
+  WF l -> WF r ->
+  length (inputs l) = length (inputs r) -> length (outputs l) = length (outputs r) ->
+  ln <> "" -> rn <> "" -> MiterNoClash l r ln rn ->
+  exists m, build_miter l r ln rn = Ok m.
+Proof. exact build_miter_total. Qed.
+
+Theorem C13_default_names_no_clash : forall l r, MiterNoClash l r "circuit1" "circuit2".
+Proof. exact default_names_no_clash. Qed.
 
 (* non-vacuity: two 2-input circuits sharing labels, two outputs (one of them an input),
    and a single-output pair; default block names *)
